@@ -9,11 +9,13 @@ Notation up_to_date_c := (up_to_date project config sched fname tree tree files)
 
 (* Model of the patched code (commands sorted by (file, name) before hashing, type mappings through a BTreeMap,
    files analysed in sorted path order). The fingerprint is the same under every valid discovery order - file
-   map order and mapping order - for projects whose commands have unique (file, name) and whose discovered
-   structs have unique names (what Rust and the HashMap of structs guarantee). *)
+   map order and mapping order - for projects whose commands have unique (file, name), whose discovered
+   structs have unique names (what Rust and the HashMap of structs guarantee) and whose events are discovered in
+   the same order (they are hashed in discovery order; since C13-sort-before-use that order is unique). *)
 Theorem C14_fp_order_independent : forall (p : project) (c : config) (wa wb : sched),
   valid_sched wa p c = true -> valid_sched wb p c = true ->
-  NoDup (map cmd_key (a_cmds (analyse wa p))) -> NoDup (map s_name (a_structs (analyse wa p))) ->
+  NoDup (map (cmd_key (g_ppath c)) (a_cmds (analyse wa p))) -> NoDup (map s_name (a_structs (analyse wa p))) ->
+  u_events (analyse wa p) = u_events (analyse wb p) ->
   fp wa p c = fp wb p c.
 Proof. exact fp_order_independent. Qed.
 
@@ -21,37 +23,40 @@ Proof. exact fp_order_independent. Qed.
    up to date answers up to date and leaves the whole state - every output file and the record -
    untouched: for every state and every pair of valid orders; no order class is left. *)
 Theorem C14_idempotent : forall (w1 w2 : sched) (st : cstate) r st1,
-  run_c false w1 false None st = (r, st1) -> r = Success \/ r = UpToDate ->
+  run_c true w1 false None st = (r, st1) -> r = Success \/ r = UpToDate ->
   g_force (s_cfg st) = false ->
   valid_sched w1 (s_src st) (s_cfg st) = true -> valid_sched w2 (s_src st) (s_cfg st) = true ->
-  NoDup (map cmd_key (a_cmds (analyse w1 (s_src st)))) -> NoDup (map s_name (a_structs (analyse w1 (s_src st)))) ->
-  run_c false w2 false None st1 = (UpToDate, st1).
-Proof. intros w1 w2 st r st1 Hrun Hr Hf V1 V2 Hk Hs.
-  apply (idempotent_sched project config sched fname tree tree fname_eqb tree_eqb files fp has_commands g_force false
-           tree_eqb_spec eq_refl w1 w2 st r st1 Hrun Hr Hf).
-  symmetry. apply fp_order_independent; assumption. Qed.
+  NoDup (map (cmd_key (g_ppath (s_cfg st))) (a_cmds (analyse w1 (s_src st)))) ->
+  NoDup (map s_name (a_structs (analyse w1 (s_src st)))) ->
+  u_events (analyse w1 (s_src st)) = u_events (analyse w2 (s_src st)) ->
+  run_c true w2 false None st1 = (UpToDate, st1).
+Proof. intros w1 w2 st r st1 Hrun Hr Hf V1 V2 Hk Hs He.
+  apply (idempotent_sched project config sched fname tree tree fname_eqb tree_eqb files fp has_commands g_force true
+           fname_eqb_spec tree_eqb_spec files_nodup w1 w2 st r st1 Hrun Hr Hf).
+  - symmetry. apply fp_order_independent; assumption.
+  - apply files_names. exact He. Qed.
 
 (* the former witnesses of C14-1 (two files, two orders) and C14-2 (two mappings, two map orders):
    the second run is a no-op now *)
 Theorem C14_repaired_file_order :
   valid_sched w01 p2 c0 = true /\ valid_sched w10 p2 c0 = true /\
-  let st1 := snd (run_c false w01 false None (init_state p2 c0)) in
-  run_c false w10 false None st1 = (UpToDate, st1) /\ fst (run_c false w01 false None (init_state p2 c0)) = Success.
+  let st1 := snd (run_c true w01 false None (init_state p2 c0)) in
+  run_c true w10 false None st1 = (UpToDate, st1) /\ fst (run_c true w01 false None (init_state p2 c0)) = Success.
 Proof. exact c14_fixed_files. Qed.
 Theorem C14_repaired_mapping_order :
   valid_sched wm01 p0 cmaps = true /\ valid_sched wm10 p0 cmaps = true /\
-  let st1 := snd (run_c false wm01 false None (init_state p0 cmaps)) in
-  fst (run_c false wm10 false None st1) = UpToDate.
+  let st1 := snd (run_c true wm01 false None (init_state p0 cmaps)) in
+  fst (run_c true wm10 false None st1) = UpToDate.
 Proof. exact c14_fixed_maps. Qed.
 
 (* forcing: with the flag or force:true every run on a project with commands succeeds, writes every file of
    the plan and the record, from every state (every cache state included), touching no other file *)
 Theorem C14_force : forall (w : sched) (flag : bool) (st : cstate),
   has_commands (s_src st) = true -> flag || g_force (s_cfg st) = true ->
-  exists st', run_c false w flag None st = (Success, st') /\ up_to_date_c w st' /\
+  exists st', run_c true w flag None st = (Success, st') /\ up_to_date_c w st' /\
     s_cache st' = Some (fp w (s_src st) (s_cfg st)) /\
     (forall f, ~ In f (map fst (files w (s_src st) (s_cfg st))) -> s_out st' f = s_out st f).
-Proof. exact (force_regenerates project config sched fname tree tree fname_eqb tree_eqb files fp has_commands g_force false
+Proof. exact (force_regenerates project config sched fname tree tree fname_eqb tree_eqb files fp has_commands g_force true
                 fname_eqb_spec files_nodup). Qed.
 
 (* flag > file: the flag forces whatever the file says; without the flag the file decides *)
@@ -60,23 +65,36 @@ Theorem C14_flag_prevails : forall c : config,
 Proof. intros c. split; reflexivity. Qed.
 
 (* invocation spellings: whatever flags, files or path spellings produced the current effective inputs, a
-   non-forced run over a record equal to their fingerprint is a no-op (verbose, --force of an earlier run,
-   -o spellings, flag-versus-file never enter the fingerprint) *)
+   non-forced run over a record equal to their fingerprint, with the files of the plan present, is a no-op
+   (verbose, --force of an earlier run, -o spellings, flag-versus-file never enter the fingerprint) *)
 Theorem C14_matching_record_noop : forall (w : sched) (st : cstate),
   has_commands (s_src st) = true -> g_force (s_cfg st) = false ->
-  s_cache st = Some (fp w (s_src st) (s_cfg st)) -> run_c false w false None st = (UpToDate, st).
-Proof. exact (matching_record_noop project config sched fname tree tree fname_eqb tree_eqb files fp has_commands g_force false
-                tree_eqb_spec eq_refl). Qed.
+  s_cache st = Some (fp w (s_src st) (s_cfg st)) ->
+  present fname tree (s_out st) (files w (s_src st) (s_cfg st)) = true ->
+  run_c true w false None st = (UpToDate, st).
+Proof. exact (matching_record_noop project config sched fname tree tree fname_eqb tree_eqb files fp has_commands g_force true
+                tree_eqb_spec). Qed.
 
-(* ... but the spelling of the project path does: file_path follows it and is hashed (class kf_C14_path) *)
-Theorem C14_refuted_path_spelling :
-  kf_C14_path w1 [mk_file_at "./src-tauri"] [mk_file_at "src-tauri"] c0 = true /\
-  let st1 := snd (run_c false w1 false None (init_state [mk_file_at "./src-tauri"] c0)) in
-  fst (run_c false w1 false None (step_c false st1 (SetSrc _ _ _ _ [mk_file_at "src-tauri"]))) = Success.
-Proof. exact c14_refuted_path. Qed.
+(* the former witness of C14-3: the project path spelled ./src-tauri, then src-tauri - same fingerprint (file
+   paths are hashed relative to the project path), the second run is a no-op; with visualize_deps on the
+   spelling is printed into dependency-graph.txt, is hashed, and the run regenerates *)
+Theorem C14_repaired_path_spelling :
+  fp w1 [mk_file_at "./src-tauri"] (cfg_at "./src-tauri" false) = fp w1 [mk_file_at "src-tauri"] (cfg_at "src-tauri" false) /\
+  let st1 := snd (run_c true w1 false None (init_state [mk_file_at "./src-tauri"] (cfg_at "./src-tauri" false))) in
+  let st2 := step_c true (step_c true st1 (SetSrc _ _ _ _ [mk_file_at "src-tauri"])) (SetCfg _ _ _ _ (cfg_at "src-tauri" false)) in
+  run_c true w1 false None st2 = (UpToDate, st2).
+Proof. exact c14_fixed_path. Qed.
+Theorem C14_path_spelling_under_visualize :
+  let st1 := snd (run_c true w1 false None (init_state [mk_file_at "./src-tauri"] (cfg_at "./src-tauri" true))) in
+  let st2 := step_c true (step_c true st1 (SetSrc _ _ _ _ [mk_file_at "src-tauri"])) (SetCfg _ _ _ _ (cfg_at "src-tauri" true)) in
+  fst (run_c true w1 false None st2) = Success.
+Proof. exact c14_path_under_viz. Qed.
+(* a file below the project path is hashed by its relative path, whatever the spelling of the project path *)
+Theorem C14_relative_path : forall root r : str, rel_path root (root ++ L "/" ++ r)%list = r.
+Proof. exact rel_path_app. Qed.
 
 Example C14_ex_premises :
-  NoDup (map cmd_key (a_cmds (analyse w01 p2))) /\ NoDup (map s_name (a_structs (analyse w01 p2))) /\ has_commands p2 = true.
+  NoDup (map (cmd_key (g_ppath c0)) (a_cmds (analyse w01 p2))) /\ NoDup (map s_name (a_structs (analyse w01 p2))) /\ has_commands p2 = true.
 Proof. exact c14_ex_keys. Qed.
 
 Print Assumptions C14_idempotent.
@@ -86,4 +104,6 @@ Print Assumptions C14_repaired_mapping_order.
 Print Assumptions C14_force.
 Print Assumptions C14_flag_prevails.
 Print Assumptions C14_matching_record_noop.
-Print Assumptions C14_refuted_path_spelling.
+Print Assumptions C14_repaired_path_spelling.
+Print Assumptions C14_path_spelling_under_visualize.
+Print Assumptions C14_relative_path.
